@@ -793,6 +793,10 @@ def add_exotics(rng: random.Random, form: dict, kinds, p=0.5) -> list[str]:
                     if col == "big-image":
                         r["image"] = "small.png"
                     _translated(rng, r, col, langs, delim, ["g.png", "pic.jpg"], p_plain=0.4)
+                    if rng.random() < 0.3 and r.get("type", "").startswith("begin group"):
+                        # a group with media and no words: the media is shown all the same
+                        for k in [k for k in r if k.startswith(("label", "hint", "guidance_hint"))]:
+                            del r[k]
         elif kind == "group_truth":
             # one spelling per column: a second alias of a column the sheet already has is (rightly) rejected
             have = {"_".join(k.split()).lower(): k for r in survey for k in r}
